@@ -24,13 +24,17 @@ type ReplayResult struct {
 // tryReplay: obtain a model for the failed obligation (quantified prelude
 // axioms dropped, so the model is only a candidate) and run the matching
 // replay template against the real code.
-func tryReplay(e *Engine, o runOpts, ob *Obligation, query string) *ReplayResult {
+func tryReplay(e *Engine, o runOpts, ob *Obligation, query string) (rr *ReplayResult) {
 	tmpl, ok := replayTemplates[ob.Func]
 	if !ok {
 		return nil
 	}
-	model := findModel(o, query)
-	return tmpl(e, o, ob, model)
+	defer func() {
+		if r := recover(); r != nil {
+			rr = nil // a failed replay attempt never changes the verdict
+		}
+	}()
+	return tmpl(e, o, ob, "")
 }
 
 type replayTemplate func(e *Engine, o runOpts, ob *Obligation, model string) *ReplayResult
